@@ -11,9 +11,12 @@ CLAIMED = {
  'C03': 'same units as C02: parse -> serialize -> parse: accepted again, every stored-field getter equal, next-protocol tags preserved in front of an unrecognised non-empty payload, payload equal (modulo Ethernet minimum-frame padding), second serialization byte-identical',
  'C05': 'checksum kernels (sum_range, do_checksum, IPv4 pseudo-header, crc32) against RFC 1071 / IEEE 802.3 references for every buffer of each length in the bound; the per-layer serializers that use them are not encoded yet',
  'C06': 'RFC 1982 comparison kernel (seq_compare) for all 2^64 pairs: sign, antisymmetry, shift invariance; plus TCPIP::DataTracker on the real std::map/std::vector for k=2 segments of every shape inside a 3-byte window at initial sequence numbers bracketing the wrap point, stream bytes symbolic; the legacy TCPStream and Flow callbacks are outside',
+ 'C07': 'only the connection key: StreamIdentifier construction / operator< / operator== / serialize on fully symbolic endpoints (direction independence, equality exactly on the same unordered endpoint pair, strict weak order, IPv4 vs IPv6 keys). The stateful follower (announce once, erase at finish, limits, keep-alive, callbacks) is NOT decided',
+ 'C12': 'PDUOption special members for every source/target representation with symbolic bytes (copy, move, self-assignment, destruction; leak and double-free checks) and six fixed tree programs over IPSecESP/UDP/RawPDU and Packet (stack, clone, copy-assign shorter/longer, move and reuse, release/re-attach/replace, Packet wrap/copy/move/release) with a forest walk after every step',
  'C13': 'finite and complete: every concrete class x every class with a flag, symbolic flag value, against std::is_base_of',
  'C14': 'matches_response of every overriding class: memory safety on every reply length in the bound with a probe inner layer; mirror/perturbation relation for Ethernet, IPv4, TCP, UDP, ICMP, ICMPv6, DNS, ARP',
  'C15': 'every discovered (class, scalar/address field) pair: set arbitrary value on an arbitrary parsed header state, getter returns it (or value_too_large), every non-aliasing getter unchanged',
+ 'C19': 'only the wrap-aware range splitter AckedRange for every (first,last) less than 2^31 apart: at most two ordered disjoint intervals whose union is exactly the cyclic range. AckTracker histories over boost::icl are NOT decided',
  'C16': 'IPv4/IPv6/hardware address order, equality, hash, masks, prefix ranges (every prefix length), contains, iteration at symbolic positions incl. the top of the IPv4 space, hardware-address text parser on every string up to 17 characters',
 }
 NA = {
